@@ -186,6 +186,7 @@ def suite_solver(ctx, core):
                               f'sc_dir={sc} shape {shp}: coarse widths '
                               f'{[list(x) for x in cm.grid.h]}',
                               {'sc_dir': sc, 'shape': shp})
+                continue
             if np.any(cef.field != 0) or cef.field.dtype != sf.field.dtype:
                 bad.append((sc, shp, 'coarse efield not zero / dtype'))
             # coarse model = sum of children, per component as exposed
@@ -267,6 +268,10 @@ def suite_solver(ctx, core):
         exp = c02.parse_out(o, oshp)
         for comp in range(3):
             ex = to_complex(exp[comp])
+            if np.asarray(got[comp]).shape != ex.shape:
+                bad.append((what, sc, shp, 'xyz'[comp], 'shape',
+                            np.asarray(got[comp]).shape, ex.shape))
+                continue
             err = np.abs(np.asarray(got[comp]) - ex)
             tol = 64*eps*(np.abs(ex) + 64)
             if err.size and (err > tol).any():
